@@ -736,7 +736,34 @@ def rule_verdict_on_both_arms(ctx: Ctx, rep: Report) -> None:
     rep.floor(rule, 2)
 
 
+def rule_no_mutable_defaults_(ctx: Ctx, rep: Report) -> None:
+    """C20.no_mutable_defaults: no function of the package has a mutable default
+    argument (sigcommon.no_mutable_defaults): a shared `{}` that a parser
+    files private keys into makes a watch-only wallet able to sign after an
+    unrelated call."""
+    from rules import sigcommon
+    sigcommon.rule_no_mutable_defaults(ctx, rep, "C20.no_mutable_defaults", ("btclib.",))
+
+
+def rule_gacc_on_the_python_arm(ctx: Ctx, rep: Report) -> None:
+    """C20.gacc_on_the_python_arm: MuSig2's partial signature verification has a
+    delegated arm and a Python one; the Python one multiplies by the
+    accumulated negations `gacc` on both parities of the aggregate key
+    (C16.gacc, reported here) -- else a valid partial signature is True with
+    the bindings, False without, and True again."""
+    from rules import C16
+    tmp = Report("C16", rep.tier)
+    tmp.quiet = True
+    C16.rule_gacc(ctx, tmp)
+    for o in tmp.obs:
+        rep.ob("C20.gacc_on_the_python_arm", o.instance, o.held, o.site, o.detail)
+    rep.floor("C20.gacc_on_the_python_arm", 2)
+
+
 RULES = [
+    ("C20.no_mutable_defaults", rule_no_mutable_defaults_),
+    ("C20.gacc_on_the_python_arm", rule_gacc_on_the_python_arm),
+
     ("C20.tweak_arms_agree", rule_tweak_arms_agree),
     ("C20.verdict_on_both_arms", rule_verdict_on_both_arms),
 
